@@ -7,8 +7,9 @@
 
     started_when_triggered (full, false): ∀ ops d, d ∈ (run …).dts → d.trigger ≠ 0 → d.starts ≥ 1
 
-  F-C05a (start timer at `now = end_time`) and F-C05b (flexible downtime on a never-checked checkable)
-  are repaired in /repo (eead572, 40d44b0); `start_once` and `flexible_trigger` are full theorems.
+  F-C05a (start timer at `now = end_time`), F-C05b (flexible downtime on a never-checked checkable) and
+  F-C05e (trigger time recorded before `start_time`) are repaired in /repo (eead572, 40d44b0, 2efb740);
+  `start_once`, `flexible_trigger` and `trigger_not_before_start` are full theorems.
 -/
 import IcingaProofs.C05.Whole
 
@@ -98,12 +99,12 @@ theorem trigger_only_in_window (st : St) (op : Op) (d' : Dt) (hd' : d' ∈ (step
 
 /-! ### Chained triggers -/
 
-/-- **trigger_cascade.**  When `TriggerDowntime(t)` (`t ≠ 0`) is called on a downtime `d` that can be
+/-- **trigger_cascade.**  When `TriggerDowntime(t)` (`0 < t`) is called on a downtime `d` that can be
     triggered, then for every name `c` in `d.triggers` that denotes an existing downtime there is,
     afterwards, an existing downtime `c` that is triggered (`trigger ≠ 0`) or cannot be triggered at
     `now` (outside `[start, end]`, expired, or already in effect).  `n + 2` is any fuel that lets the
     call and one level of recursion run; deeper levels follow by applying the theorem again. -/
-theorem trigger_cascade (n : Nat) (now t : Int) (ht : t ≠ 0) (id : Nat) (dts : List Dt) (d : Dt)
+theorem trigger_cascade (n : Nat) (now t : Int) (ht : 0 < t) (id : Nat) (dts : List Dt) (d : Dt)
     (hf : findDt dts id = some d) (hc : canBeTriggered now d = true)
     (c : Nat) (hcm : c ∈ d.triggers) (x : Dt) (hx : x ∈ dts) (hl : live c x = true) :
     ∃ x' ∈ triggerDt (n + 2) now t id dts,
@@ -290,16 +291,17 @@ theorem started_counterexample :
         whose state is not OK;
     (b) an OK (or dropped) result triggers nothing;
     (c) an accepted non-OK result at `now` triggers every existing, not yet triggered flexible downtime
-        with `start ≤ now ≤ end`, with the result's execution end as trigger time (ids are unique among
+        with `start ≤ now ≤ end`, with the result's execution end — or `start_time`, if the result was executed before
+        it (2efb740) — as trigger time (ids are unique among
         the checkable's downtimes). -/
 theorem flexible_trigger (st : St) (now : Int) :
     (∀ d dts, st.problem = false → startFlexible st now d dts = dts) ∧
     (st.problem = true ↔ (st.lastExec.isSome = true ∧ isOK st.kind st.state = false)) ∧
     (∀ s te, isOK st.kind s = true → (resultOp st s te now).1.dts = st.dts) ∧
-    (∀ s te, stale st te now = false → isOK st.kind s = false → te ≠ 0 →
+    (∀ s te, stale st te now = false → isOK st.kind s = false → 0 < te →
       ∀ d ∈ st.dts, (∀ y ∈ st.dts, y.id = d.id → y = d) →
         d.removed = false → d.fixed = false → d.trigger = 0 → d.start ≤ now → now ≤ d.fin →
-        ∃ d' ∈ (resultOp st s te now).1.dts, d'.id = d.id ∧ d'.removed = false ∧ d'.trigger = te) := by
+        ∃ d' ∈ (resultOp st s te now).1.dts, d'.id = d.id ∧ d'.removed = false ∧ d'.trigger = max te d.start) := by
   refine ⟨?_, ?_, ?_, ?_⟩
   · intro d dts h; simp [startFlexible, h]
   · simp [St.problem]
@@ -311,15 +313,15 @@ theorem flexible_trigger (st : St) (now : Int) :
 
 /-- **flexible_trigger_exact.**  In every state reached by a well-formed run, an accepted non-OK result at
     `now` triggers every existing, not yet triggered flexible downtime with `start ≤ now ≤ end`, and its
-    trigger time is exactly the result's execution end (no uniqueness hypothesis: ids are unique in
+    trigger time is exactly `max(execution end, start_time)` (no uniqueness hypothesis: ids are unique in
     reachable states, so the downtime is identified by its id). -/
 theorem flexible_trigger_exact (k : Kind) (ops : List Op) (hw : WF 990 ops) (s : Nat) (te now : Int)
     (hs : stale (run (initSt k) ops) te now = false) (hok : isOK (run (initSt k) ops).kind s = false)
-    (hte : te ≠ 0) :
+    (hte : 0 < te) :
     ∀ d ∈ (run (initSt k) ops).dts, d.removed = false → d.fixed = false → d.trigger = 0 →
       d.start ≤ now → now ≤ d.fin →
       ∃ d' ∈ (resultOp (run (initSt k) ops) s te now).1.dts, d'.id = d.id ∧ d'.removed = false ∧
-        d'.trigger = te ∧ ∀ y ∈ (resultOp (run (initSt k) ops) s te now).1.dts, y.id = d.id → y = d' := by
+        d'.trigger = max te d.start ∧ ∀ y ∈ (resultOp (run (initSt k) ops) s te now).1.dts, y.id = d.id → y = d' := by
   obtain ⟨T, sp, h⟩ := tinv_run ops (specInit k) (initSt k) 990 (tinv_init k) hw
   intro d hd hr hf h0 h1 h2
   obtain ⟨d', hd', hid, hr', ht⟩ := result_triggers_flexible (run (initSt k) ops) now s te hs hok hte d hd
@@ -330,37 +332,45 @@ theorem flexible_trigger_exact (k : Kind) (ops : List Op) (hw : WF 990 ops) (s :
     rw [ids_result]; exact h.wfl.1
   exact eq_of_id hnd' hy hd' (by rw [hyid, hid])
 
-/-! ### The recorded trigger time and the window — partial, with the counterexample (F-C05e) -/
+/-! ### The recorded trigger time and the window (F-C05e, repaired by 2efb740) -/
 
-/-- **trigger_not_before_start_partial.**  What each path writes into an unset trigger time: a fixed downtime
-    started by `Downtime::Start` / the start timer records `max(start, entry) ≥ start`; a flexible downtime
-    created on an existing problem records `max(start, entry, last_state_change) ≥ start`; a downtime reached
-    by `TriggerDowntime(t)` — non-OK result with `t = execution_end`, trigger chain with the trigger time of
-    the chain's root — records `t` itself, which is `≥ start` exactly when `start ≤ t`: the hypothesis the
-    full statement "a set trigger time is never before start_time" lacks. -/
-theorem trigger_not_before_start_partial (d : Dt) (h0 : d.trigger = 0) :
-    d.start ≤ (startSelf d).trigger ∧
-    (∀ lsc, d.start ≤ (trigSelf (max (max d.start d.entry) lsc) d).trigger) ∧
-    (∀ t, (trigSelf t d).trigger = t) ∧ (∀ t, d.start ≤ t → d.start ≤ (trigSelf t d).trigger) := by
-  refine ⟨?_, ?_, ?_, ?_⟩
-  · simp only [startSelf, trigSelf, noteTriggered, markTriggered, noteStarted, h0]; simp; omega
-  · intro lsc; simp only [trigSelf, noteTriggered, markTriggered, h0]; simp; omega
-  · intro t; simp [trigSelf, noteTriggered, markTriggered, h0]
-  · intro t ht; simp [trigSelf, noteTriggered, markTriggered, h0]; exact ht
+/-- **trigger_not_before_start.**  Over every operation sequence (no well-formedness needed) from a state in
+    which it holds — in particular the initial one —, the trigger time a downtime records is never before its
+    own `start_time`: `TriggerDowntime` clamps the time it is given (execution end of the result, trigger time
+    of the root of a chain) to the start of the downtime it is called on, so a chained downtime whose window
+    begins later than its trigger downtime took effect records its own `start_time`. -/
+theorem trigger_not_before_start (ops : List Op) (st : St)
+    (h0 : ∀ d ∈ st.dts, d.trigger ≠ 0 → d.start ≤ d.trigger) :
+    ∀ d ∈ (run st ops).dts, d.trigger ≠ 0 → d.start ≤ d.trigger := by
+  induction ops generalizing st with
+  | nil => exact h0
+  | cons op ops ih =>
+    have : run st (op :: ops) = run (step st op).1 ops := by simp [run]
+    rw [this]
+    apply ih
+    intro d' hd' ht
+    rcases step_pred st op (stepRel_RLB op.now) (allc_trivial _) (opT_trivial st op)
+      (fun b _ _ d _ => rlb_setq b d) d' hd' with ⟨d, hd, r⟩ | ⟨p, _, r⟩
+    · by_cases hz : d.trigger = 0
+      · have := r.2.2.2 hz ht; rw [r.2.1]; exact this
+      · rw [r.2.2.1 hz, r.2.1]; exact h0 d hd hz
+    · have := r.2.2.2 rfl ht; rw [r.2.1]; exact this
 
-/-- F-C05e: flexible downtime [1010, 1030] of 5 s; a CRITICAL result executed at 1004 is processed at 1010. -/
+/-- The former F-C05e witness: flexible downtime [1010, 1030] of 5 s; a CRITICAL result executed at 1004 is
+    processed at 1010. -/
 def ceEarlyResult : List Op :=
   [.result 0 1000 1000, .add ⟨1, false, 1010, 1030, 5, 0, false⟩ 1001, .result 2 1004 1010]
 
-/-- **trigger_not_before_start_counterexample.**  "The trigger time a downtime records lies inside its window"
-    is false of the model, on a well-formed run: the downtime records 1004 < start = 1010, has requested
-    DowntimeStart, and the checkable is not in downtime at 1010 (nor at any later instant). -/
-theorem trigger_not_before_start_counterexample :
-    WF 990 ceEarlyResult ∧
-    (∃ d ∈ (run (initSt .service) ceEarlyResult).dts, d.trigger = 1004 ∧ d.start = 1010 ∧ d.starts = 1) ∧
-    depth 1010 (run (initSt .service) ceEarlyResult).dts = 0 ∧
-    specTrace (specInit .service) (trace (initSt .service) ceEarlyResult) = some .triggerNotBeforeStart := by
-  refine ⟨by decide, by decide, by decide, by decide⟩
+/-- … now takes effect at its `start_time`, the checkable is in downtime, and the whole specification holds;
+    and a chained downtime whose window begins after its trigger downtime took effect records its own start. -/
+example : WF 990 ceEarlyResult ∧
+    ((run (initSt .service) ceEarlyResult).dts.map (fun d => (d.trigger, d.starts))) = [(1010, 1)] ∧
+    depth 1010 (run (initSt .service) ceEarlyResult).dts = 1 ∧
+    specTrace (specInit .service) (trace (initSt .service) ceEarlyResult) = none := by decide
+
+example : ((run (initSt .host) [.result 0 1000 1000, .add ⟨1, true, 1000, 1030, 0, 0, false⟩ 995,
+    .add ⟨2, false, 1003, 1030, 20, 1, false⟩ 996, .pump 1004 true]).dts.map (fun d => (d.id, d.trigger))) =
+    [(1, 1000), (2, 1003)] := by decide
 
 /-! ### The whole trace -/
 
@@ -368,15 +378,14 @@ theorem trigger_not_before_start_counterexample :
     backwards, check results carry an execution end in `(0, now]`, durations are not negative) from a
     never-checked checkable, the trace of the model — operations with the model's own observations —
     satisfies the executable specification, evaluated through the specification's own bookkeeping, on
-    every clause except the three that are false of the code (`coreMask`, IcingaProofs/C05/Whole.lean):
+    every clause except the two that are false of the code (`coreMask`, IcingaProofs/C05/Whole.lean):
     existence, dropped result, in-downtime iff, depth, trigger write-once, trigger only in window,
     flexible trigger (exact time), trigger cascade, start once, DowntimeStart for every flexible downtime
     that took effect (`started_when_triggered`), fixed started in window, end once, no DowntimeEnd of a
     flexible downtime without its DowntimeStart (`end_has_start`), removed event, expired removed, owner
-    protected.  The full statement `specTrace (specInit k) (trace (initSt k) ops) = none` is false of the
-    code: F-C05c violates `fixed_started_when_triggered` and `fixed_end_has_start` (see
-    `started_counterexample`), F-C05e violates `trigger_not_before_start` (see
-    `trigger_not_before_start_counterexample`). -/
+    protected, recorded trigger time not before start (`trigger_not_before_start`, F-C05e repaired by 2efb740).
+    The full statement `specTrace (specInit k) (trace (initSt k) ops) = none` is false of the code: F-C05c
+    violates `fixed_started_when_triggered` and `fixed_end_has_start` (see `started_counterexample`). -/
 theorem model_trace_meets_spec_partial (k : Kind) (ops : List Op) (hw : WF 990 ops) :
     specTraceM coreMask (specInit k) (trace (initSt k) ops) = none :=
   trace_core ops (specInit k) (initSt k) 990 (tinv_init k) hw
